@@ -75,7 +75,7 @@ def model_check(ctx: Ctx, npoints: int, with_import: bool, strict_parts: list[st
     repair is necessary.  Returns the IDLE table {(inj, hist): [allowed idle states]}."""
     res = run_tlc("cache/Backend_Gen.tla",
                   cfg_text("00000", npoints, with_import, invariants=list(WEAK) + ["Emit"]),
-                  ctx.scratch, workers=ctx.pick(8, "auto"), timeout=1500, heap="6g")
+                  ctx.scratch, workers=ctx.pick(8, "auto"), timeout=1500, heap="2g")
     expect_clean(res, "Backend.tla as built: every failure goes through a named deviation")
     ctx.add_tlc(res)
     ctx.note("model_states_as_built", res.distinct)
@@ -85,15 +85,15 @@ def model_check(ctx: Ctx, npoints: int, with_import: bool, strict_parts: list[st
         table.setdefault(k, []).append(r)
     ctx.require(len(table) > 100, f"too few idle states emitted by Backend_Gen: {len(table)}")
     # control: the strict contract is violated by the as-built model, part by part
-    for part in strict_parts:
+    for part in (["Strict"] if ctx.quick else strict_parts):
         r2 = run_tlc("cache/Backend.tla", cfg_text("00000", npoints, with_import, invariants=[part]),
-                     ctx.scratch, workers=4, timeout=900)
+                     ctx.scratch, workers=4, timeout=900, heap="1g")
         expect_violation(r2, part, f"as-built model must violate {part}")
         ctx.add_tlc(r2)
     # all repairs: strict contract holds
     r3 = run_tlc("cache/Backend.tla",
                  cfg_text("11111", npoints, with_import, invariants=["TypeOK", "GhostMerkle", "Strict"]),
-                 ctx.scratch, workers=ctx.pick(8, "auto"), timeout=1500, heap="6g")
+                 ctx.scratch, workers=ctx.pick(8, "auto"), timeout=1500, heap="2g")
     expect_clean(r3, "Backend.tla with all five repairs: strict contract")
     ctx.add_tlc(r3)
     ctx.note("model_states_repaired", r3.distinct)
@@ -102,7 +102,7 @@ def model_check(ctx: Ctx, npoints: int, with_import: bool, strict_parts: list[st
         for i, name in enumerate(FIXES):
             fx = "".join("0" if j == i else "1" for j in range(5))
             r4 = run_tlc("cache/Backend.tla", cfg_text(fx, npoints, with_import, invariants=["Strict"]),
-                         ctx.scratch, workers=4, timeout=900)
+                         ctx.scratch, workers=4, timeout=900, heap="1g")
             expect_violation(r4, "Strict", f"repaired model without {name} must violate Strict")
             ctx.add_tlc(r4)
             needed[name] = True
@@ -128,10 +128,19 @@ def make_jobs(ctx: Ctx, points: list[dict], with_import: bool) -> list[dict]:
     flushes = [i for i, p in enumerate(points, 1) if p["k"] == "flush"]
     injs: list[Optional[dict]] = [None]
     if ctx.quick:
+        # faults are cheap (in-process): every point.  Crashes are real process deaths: the first and
+        # the last commit of every class (operation, tables written) plus a seeded sample.
         for i in commits:
             injs.append({"kind": "fault", "at": i, "site": rng.choice(["commit", "cflush"])})
+        cls: dict = {}
+        for i in commits:
+            cls.setdefault((points[i - 1]["op"], tuple(points[i - 1]["tabs"] or [])), []).append(i)
+        before = sorted({c[0] for c in cls.values()} | {c[-1] for c in cls.values()})
+        rest = [i for i in commits if i not in before]
+        before = sorted(before + rng.sample(rest, min(3, len(rest))))
+        for i in before:
             injs.append({"kind": "crash", "at": i, "site": "before"})
-        for i in sorted(rng.sample(commits, min(6, len(commits)))):
+        for i in sorted(rng.sample(commits, min(4, len(commits)))):
             injs.append({"kind": "crash", "at": i, "site": "after"})
         for i in flushes:
             injs.append({"kind": "fault", "at": i, "site": "flush"})
@@ -182,7 +191,7 @@ def validate(ctx: Ctx, traces: list[dict], npoints: int, fixes: str = "00000", w
     res = run_tlc("cache/Backend_Trace.tla",
                   cfg_text(fixes, npoints, False, spec="TSpec", maxruns=9, view=False),
                   ctx.scratch, workers=ctx.pick(8, "auto"), env={"TRACE_FILE": str(f)}, timeout=1500,
-                  heap="6g")
+                  heap="2g")
     if res.error or res.violated:
         raise MachineryError(f"TLC failed on trace validation ({what}): {res.error} {res.violated}\n{res.out[-2500:]}")
     ctx.add_tlc(res)
